@@ -7,11 +7,11 @@
 pub mod spec;
 
 #[cfg(kani)]
-mod util;
+pub mod util;
 
 #[cfg(all(kani, feature = "c07"))]
-mod c07;
+pub mod c07;
 #[cfg(all(kani, feature = "c03"))]
-mod c03;
+pub mod c03;
 #[cfg(all(kani, feature = "c18"))]
-mod c18;
+pub mod c18;
